@@ -213,17 +213,7 @@ def classify(live, op, result, before, after):
         mrefs = set(before["mrefs"])
         # batch_cells_pandas / batch_space_pandas (repaired by /repo 3927bad) and batch_cells_module (8ba4963) have no
         # class any more: a refused call of these that changes the model is a violation
-        if kind == "copy_space":
-            # the copy is created, then its members one by one; a cells of the source (or of a space below it) named
-            # like a model-level reference - which the model accepts to be set while such a cells exists - cannot be
-            # created in the copy
-            path = op[3] if op[2] == "-" else op[2] + "." + str(op[3])
-            if op[3] is None or path in before["spaces"] or path not in after["spaces"]:
-                return None
-            for q, sd in before["spaces"].items():
-                if (q == op[1] or q.startswith(op[1] + ".")) and set(sd["cells"]) & mrefs:
-                    return KEY_COPY
-            return None
+        # copy_space (repaired by /repo 78730cd: the names are checked before anything is created) has no class any more
         if kind == "batch_space_module" and not import_module_checks_first():
             # import_module / new_space_from_module ONLY: the space is created, then the functions are looked at
             target = op[2] if op[1] == "-" else op[1] + "." + op[2]
